@@ -305,14 +305,16 @@ Theorem alias_equivalence_status_refuted :
   exists wf cli f,
     no_double (prog_aliases gen_prog) f
     /\ parse gen_table wf gen_prog cli (fun _ => FFile f) FNoFile = Fail
-    /\ exists s', parse gen_table wf gen_prog cli (fun _ => FFile (rename_items (prog_aliases gen_prog) f)) FNoFile = Run s'
-                  /\ s_vars s' "V_RF" = Some [5%Z].
+    /\ match parse gen_table wf gen_prog cli (fun _ => FFile (rename_items (prog_aliases gen_prog) f)) FNoFile with
+       | Run s' => s_vars s' "V_RF" = Some [5%Z]
+       | _ => False
+       end.
 Proof.
   exists (fun _ t => negb (Z.eqb t 66)), [(Short "V", [5%Z]); (Long "config", [9%Z])], [("RFVoltage", [66%Z])].
   split; [|split].
   - intros a c I. vm_compute in I. destruct I as [E|[E|[E|[]]]]; injection E as <- <-; vm_compute; congruence.
   - vm_compute. reflexivity.
-  - eexists. split; vm_compute; reflexivity.
+  - vm_compute. reflexivity.
 Qed.
 Print Assumptions alias_equivalence_status_refuted.
 
